@@ -220,3 +220,70 @@ func vpH_C04_penalty() {
 // C02 gate (accept-once): the same pipeline harness is part of the C02 check: an ID that is already seen reaches
 // neither the validators nor delivery, for remote and local origin alike.
 func vpH_C02_gate() { vpPipeline(2) }
+
+// seen_sync: the synchronous path (no validators, no signature check): K=3 arrivals of messages drawn from two IDs, in one
+// RPC or several, from two forwarders; each ID is delivered to the subscription, traced as delivered and forwarded at
+// most once — exactly once if it arrived at all.
+func vpH_C02_seen_sync() {
+	vpOpt("unwind", 24)
+	nd := vpNewNode("self", vpNodeCfg{router: "floodsub", tracer: true})
+	ps := nd.ps
+	sub := &Subscription{topic: vpT0, ch: make(chan *Message, 8), ctx: ps.ctx}
+	ps.handleAddSubscription(&addSubReq{sub: sub, resp: make(chan *Subscription, 1)})
+	nd.vpAddPeer("p0", FloodSubID, true)
+	nd.vpAddPeer("p1", FloodSubID, true)
+	qo := nd.vpAddPeer("obs", FloodSubID, true)
+	ps.handleIncomingRPC(vpSubRPC("obs", vpT0, true))
+	nd.tr.evts = nil
+	topic := vpT0
+	mk := func(k int) *pb.Message {
+		return &pb.Message{From: []byte("A"), Seqno: []byte([]string{"1", "2"}[k]), Data: []byte("x"), Topic: &topic}
+	}
+	var arrived [2]bool
+	ids := []int{vpInt("id", 0, 1), vpInt("id", 0, 1), vpInt("id", 0, 1)}
+	oneRPC := vpBool("first_two_in_one_rpc")
+	f0, f1 := []peer.ID{"p0", "p1"}[vpInt("forwarder", 0, 1)], []peer.ID{"p0", "p1"}[vpInt("forwarder", 0, 1)]
+	if oneRPC {
+		ps.handleIncomingRPC(&RPC{RPC: pb.RPC{Publish: []*pb.Message{mk(ids[0]), mk(ids[1])}}, from: f0})
+	} else {
+		ps.handleIncomingRPC(&RPC{RPC: pb.RPC{Publish: []*pb.Message{mk(ids[0])}}, from: f0})
+		ps.handleIncomingRPC(&RPC{RPC: pb.RPC{Publish: []*pb.Message{mk(ids[1])}}, from: f1})
+	}
+	ps.handleIncomingRPC(&RPC{RPC: pb.RPC{Publish: []*pb.Message{mk(ids[2])}}, from: f1})
+	for _, k := range ids {
+		arrived[k] = true
+	}
+	var got, fwd [2]int
+	for len(sub.ch) > 0 {
+		m := <-sub.ch
+		for k := 0; k < 2; k++ {
+			if string(m.GetSeqno()) == []string{"1", "2"}[k] {
+				got[k]++
+			}
+		}
+	}
+	for _, r := range vpDrain(qo) {
+		for _, m := range r.Publish {
+			for k := 0; k < 2; k++ {
+				if string(m.GetSeqno()) == []string{"1", "2"}[k] {
+					fwd[k]++
+				}
+			}
+		}
+	}
+	want := 0
+	for k := 0; k < 2; k++ {
+		w := 0
+		if arrived[k] {
+			w = 1
+		}
+		want += w
+		vpAssert(got[k] == w, "each message ID is delivered to a subscription exactly once however many copies arrive")
+		vpAssert(fwd[k] == w, "each message ID is forwarded to a topic peer exactly once however many copies arrive")
+	}
+	// (a second copy inside the SAME RPC passes shouldPush before the first is marked seen and is then dropped by markSeen
+	// without a DUPLICATE_MESSAGE trace — no clause of the statement asks for one)
+	vpAssert(nd.tr.count(pb.TraceEvent_DELIVER_MESSAGE) == want && nd.tr.count(pb.TraceEvent_DUPLICATE_MESSAGE) <= 3-want, "one DELIVER_MESSAGE per ID however many copies arrive")
+	vpCover(oneRPC && ids[0] == ids[1], "two copies of one ID in the same RPC")
+	vpCover(want == 2, "both IDs arrived")
+}
